@@ -208,8 +208,8 @@ static std::string optHex(const std::optional<double>& v) { return v ? vh::hexF6
 
 static std::string caseTokens(const Case& c) {
     std::ostringstream o;
-    o << c.nx << " " << c.ny << " " << c.nz << " ";
-    for (int a : c.actnum) o << (a ? '1' : '0');
+    // "P": the model derives the ACTNUM with its own ACTNUM-only pre-pass, as EclipseState does
+    o << c.nx << " " << c.ny << " " << c.nz << " P";
     for (const auto& k : DBL_ORDER) {
         const auto& d = DBL[k];
         o << " D " << k << " " << optHex(d.init) << " " << d.mult << " " << d.top << " " << d.glob << " " << d.hasUnit
@@ -744,10 +744,29 @@ static void refResetActnum(RefState& s) {
     }
 }
 
+// The ACTNUM the grid gets: a scratch run with ALL cells active over the GRID section looking only at the
+// ACTNUM data keyword, EQUALS and BOX/ENDBOX; active iff the resulting value is > 0.
+static std::vector<int> refPrepass(const Case& c) {
+    RefState s;
+    s.nx = c.nx; s.ny = c.ny; s.nz = c.nz;
+    s.act.assign(c.nx * c.ny * c.nz, 1);
+    s.globalBox();
+    for (const auto& k : c.sec[0]) {
+        const bool take = k.type == KT::BOX || k.type == KT::ENDBOX || (k.type == KT::DATI && k.name == "ACTNUM")
+            || (k.type == KT::SCAL && k.name == "EQUALS");
+        if (take) refKeyword(s, 0, k);      // may throw RefErr: the deck is rejected
+    }
+    std::vector<int> act(s.n(), 1);
+    auto it = s.i.find("ACTNUM");
+    if (it != s.i.end()) for (int g = 0; g < s.n(); ++g) act[g] = it->second[g].v > 0;
+    return act;
+}
+
 static RefState refInit(const Case& c) {
     RefState s;
     s.nx = c.nx; s.ny = c.ny; s.nz = c.nz;
-    s.act.assign(c.actnum.begin(), c.actnum.end());
+    const auto act = refPrepass(c);
+    s.act.assign(act.begin(), act.end());
     s.globalBox();
     return s;
 }
@@ -865,10 +884,17 @@ struct Gen {
             const bool isInt = hasDataI && (!hasDataD || rng.coin(2, 5));
             k.type = isInt ? KT::DATI : KT::DATD;
             k.name = isInt ? rng.pick(DATA_I[sec]) : rng.pick(DATA_D[sec]);
+            bool again = false;
+            if (!isInt && rng.coin(1, 3)) {
+                // a second assignment of an array that already has values: defaults must not overwrite
+                std::vector<std::string> ex;
+                for (const auto& n : DATA_D[sec]) if (s.d.count(editName(sec, n))) ex.push_back(n);
+                if (!ex.empty()) { k.name = rng.pick(ex); again = true; }
+            }
             int n = s.boxSize();
             if (rng.coin(1, 60)) n += rng.coin() ? 1 : -1;
             if (n < 0) n = 0;
-            const int style = rng.range(0, 5);     // 0: constant array, 2/3: with defaulted entries
+            const int style = again ? rng.range(2, 3) : rng.range(0, 5);     // 0: constant array, 2/3: with defaulted entries
             const double baseD = niceD();
             const int baseI = rng.range(1, 3);
             for (int j = 0; j < n; ++j) {
@@ -895,8 +921,16 @@ struct Gen {
             k.name = rng.pick(ops);
             for (int j = 0; j < nrec; ++j) {
                 Rec r;
-                const bool isInt = rng.coin(1, 3);
+                bool isInt = rng.coin(1, 3);
                 r.a = isInt ? pickI(sec, rng.coin(1, 4)) : pickD(sec, rng.coin(1, 4));
+                if (k.name != "EQUALS" && rng.coin(2, 3)) {
+                    // operate on something that exists (otherwise "must already exist" rejects almost always)
+                    std::vector<std::string> ex;
+                    if (isInt) { for (const auto& kv : s.i) if (kv.first != "ACTNUM") ex.push_back(kv.first); }
+                    else { for (const auto& kv : s.d) if (kv.first.rfind(MULT_PREFIX, 0) != 0) ex.push_back(kv.first); }
+                    if (!ex.empty()) r.a = rng.pick(ex);
+                }
+                if (!isInt && rng.coin(1, 5)) r.a = rng.pick(std::vector<std::string>{ "PERMX", "PERMY", "PERMZ", "PRESSURE" });
                 if (rng.coin(1, 80)) r.a = "FOOBAR";
                 r.val = isInt ? (double) rng.range(0, 4) + (rng.coin(1, 6) ? 0.5 : 0.0) : niceD(true);
                 if (isInt && rng.coin(1, 10)) r.val = -r.val;
@@ -1067,7 +1101,29 @@ struct Gen {
             KwOp k; k.type = KT::DATI; k.name = "ACTNUM";
             for (int a : c.actnum) { DCell d; d.i = a; k.data.push_back(d); }
             c.sec[0].push_back(k);
-            refKeyword(s, 0, k);
+        }
+        // direct ACTNUM manipulation (EQUALS ACTNUM 0/1 <box>): seen by the ACTNUM-only pre-pass
+        if (rng.coin(1, 4)) {
+            KwOp k; k.type = KT::SCAL; k.name = "EQUALS";
+            const int nr = rng.range(1, 2);
+            for (int j = 0; j < nr; ++j) {
+                Rec r; r.a = "ACTNUM"; r.val = rng.coin(2, 3) ? 0.0 : 1.0; r.box = randBox(c, false);
+                k.recs.push_back(r);
+            }
+            c.sec[0].push_back(k);
+            stats["gen.equals-actnum"]++;
+        }
+        {
+            // the ACTNUM every later step sees is the one of the pre-pass; keep at least one active cell
+            auto eff = refPrepass(c);
+            int nact = 0; for (int a : eff) nact += a;
+            if (nact == 0) {
+                while (c.sec[0].size() > (c.writeActnum ? 1u : 0u)) c.sec[0].pop_back();
+                eff = refPrepass(c);
+            }
+            c.actnum = eff;
+            s = refInit(c);
+            for (const auto& k : c.sec[0]) refKeyword(s, 0, k);
         }
         // A quarter of the programs end in a deliberately rejected keyword (after `errAt` accepted
         // ones); the others are steered away from rejection so that long programs survive.
@@ -1213,7 +1269,10 @@ int main(int argc, char** argv) {
             // (2) independence of inactive cells: the same program with every cell active
             Case full = c;
             for (auto& x : full.actnum) x = 1;
-            for (auto& k : full.sec[0]) if (k.type == KT::DATI && k.name == "ACTNUM") for (auto& d : k.data) d.i = 1;
+            for (auto& k : full.sec[0]) {
+                if (k.type == KT::DATI && k.name == "ACTNUM") for (auto& d : k.data) d.i = 1;
+                if (k.type == KT::SCAL && k.name == "EQUALS") for (auto& r : k.recs) if (r.a == "ACTNUM") r.val = 1.0;
+            }
             bool same = true;
             for (int x : c.actnum) same = same && x;
             if (same) continue;
